@@ -120,7 +120,7 @@ def apply(v: Variant) -> dict:
             raise ValueError(f"variant {v.vid}: identifier {old} occurs {n} times")
         return src
     if v.diff:
-        with open(os.path.join(TWINS, v.diff)) as fh:
+        with open(v.diff if os.path.isabs(v.diff) else os.path.join(TWINS, v.diff)) as fh:
             apply_unified_diff(src, fh.read(), v.diff)
         for path, text in src.items():
             if path.endswith(".py"):
@@ -165,6 +165,17 @@ def private_attribute_names() -> list:
 
 _REG: dict[str, list[Variant]] = {}
 
+
+def _applies(diff_path: str) -> bool:
+    try:
+        src = base_sources()
+        with open(diff_path) as fh:
+            apply_unified_diff(src, fh.read(), diff_path)
+        return True
+    except Exception:
+        return False
+
+
 _INTERFACE_NAMES = {"_yaml_repr", "_match_instances", "_approximate_instances", "_register_permanently"}
 
 
@@ -197,6 +208,13 @@ def for_property(prop: str) -> list[Variant]:
             for fn in sorted(os.listdir(TWINS)):
                 if fn.endswith(".diff"):
                     vs.append(Variant(f"{prop}-x-{fn[:-5]}", "", "twin", [], diff=fn, note="independent refactoring"))
+        # the seeded changes of this property (independent sub-agents): each must be reported
+        sroot = os.path.join(os.path.dirname(os.path.dirname(os.path.abspath(__file__))), "seeded")
+        if os.path.isdir(sroot):
+            for sid in sorted(os.listdir(sroot)):
+                pd = os.path.join(sroot, sid, "patch.diff")
+                if sid.startswith(prop) and os.path.isfile(pd) and _applies(pd):
+                    vs.append(Variant(f"{prop}-s-{sid}", "R", "mutant", [], diff=pd, note="seeded change (sub-agent)"))
         # renaming any private helper everywhere keeps behaviour: rules must find their anchors
         for name in private_function_names():
             new = name + "_impl" if not name.startswith("__") else name + "_impl"
